@@ -1,5 +1,6 @@
 """C05 — autograd gradients equal the true derivatives and are finite
 
+B1 (rev): random expression programs incl. the guard idioms at the guard — torch.autograd.grad vs the reverse-mode model Ex.back.
 B1: torch.autograd gradients of all 49 entries of Quadrupole.transfer_map w.r.t. each parameter vs the tangents of the
 Lean model on dual numbers (quadMapDual at Dual Float), guard points included.
 F : autograd vs central finite differences on the real code (fals/C05.py).
@@ -7,6 +8,7 @@ F : autograd vs central finite differences on the real code (fals/C05.py).
 from __future__ import annotations
 
 from dual_corr import run_dual_correspondence
+from rev_corr import run_rev_correspondence
 try:
     from fals import C05 as F
 except ImportError:  # falsifier module not present
@@ -16,13 +18,14 @@ META = {
     "level": "proof",
     "rule": 'B1 case = (quadrupole record, energy, differentiation variable)' + ((" | falsifier: " + F.META.get("rule", "")) if F and hasattr(F, "META") else ""),
     "modelled": 'forward-mode derivative pairs (Dual.lean) through the linear-map model incl. the in-place guard k1[k1==0]=1e-12',
-    "gap": 'partial: reverse-mode engine (NaN from unselected where-branches) not modelled; HasDerivAt proofs cover the focusing functions and R[1,0]; other functions by B1/F',
+    "gap": 'partial: the reverse-mode engine is modelled over expression programs (Reverse.lean, tied to torch.autograd by op rev) and proved equal to forward mode / the derivative; Cheetah\'s own formulas reach those theorems through the dual-number correspondence, their HasDerivAt proofs cover the focusing functions, R[1,0] and the drift R56; other functions by B1/F',
     "assumptions": ((F.META.get("assumptions", []) if F and hasattr(F, "META") else []) + ['B1 tolerance 1e6 eps relative to the largest gradient entry']),
 }
 
 
 def run(ctx) -> None:
     run_dual_correspondence(ctx, "C05", ctx.n(80, 2000))
+    run_rev_correspondence(ctx, "C05", ctx.n(400, 20000))
     if F is not None:
         F.run(ctx)
 
